@@ -737,6 +737,8 @@ pub const C06_ALPHA: &[Sym] = &[
     Sym::WaEqual,
     Sym::WvEqual,
     Sym::WaBadSync,
+    Sym::WvdHalfGap,
+    Sym::WaHalfGap,
     Sym::EvKey,
     Sym::EaOk,
     Sym::FinConsume,
